@@ -8,30 +8,45 @@ struct SimAlloc {
 	void deallocate(void *p, size_t n) { radix_free(p, n); }
 	void free(void *p) { radix_free(p, 0); }
 };
-using Tree = frg::rcu_radixtree<RVal, SimAlloc>;
+// mode 0: a value whose lifetime is visible to the harness (a value handed to a reader must not have been destroyed)
+struct SVal : RVal {
+	SVal(uint64_t k, uint64_t s, uint64_t c) : RVal{k, s, c} { radix_val_ctor(this); }
+	SVal(const SVal &) = delete;
+	~SVal() { radix_val_dtor(this); }
+};
+using Tree = frg::rcu_radixtree<SVal, SimAlloc>;
+using PTree = frg::rcu_radixtree<RVal, SimAlloc>; // mode 1
+static int g_mode = 0;
+static_assert(sizeof(SVal) == sizeof(RVal));
 
-extern "C" {
-size_t sut_tree_size() { return sizeof(Tree); }
-void sut_tree_construct(void *mem) { new (mem) Tree(); }
-void sut_tree_destroy(void *mem) { static_cast<Tree *>(mem)->~Tree(); }
-void *sut_find(void *tree, uint64_t key) { return static_cast<Tree *>(tree)->find(key); }
-void *sut_find_or_insert(void *tree, uint64_t key, uint64_t seq, int *inserted) {
-	auto r = static_cast<Tree *>(tree)->find_or_insert(key, key, seq, ~key ^ seq);
-	*inserted = r.get<1>();
-	return r.get<0>();
-}
-void *sut_insert(void *tree, uint64_t key, uint64_t seq) { return static_cast<Tree *>(tree)->insert(key, key, seq, ~key ^ seq); }
-void sut_erase(void *tree, uint64_t key) { static_cast<Tree *>(tree)->erase(key); }
-void sut_iterate(void *tree, void (*cb)(void *, void *), void *ctx) {
-	auto t = static_cast<Tree *>(tree);
+template <class T>
+static void iterate(T *t, void (*cb)(void *, void *), void *ctx) {
 	bool flip = false;
 	// two styles: operator* with !=, and operator-> with == ; successive positions must compare unequal, a copy equal
 	for (auto it = t->begin(); it != t->end();) {
 		auto here = it;
 		if (!(here == it) || here != it) cb(nullptr, ctx); // a copy must compare equal
-		cb((flip = !flip) ? &*it : it.operator->(), ctx);
+		cb((flip = !flip) ? (void *)&*it : (void *)it.operator->(), ctx);
 		++it;
 		if (here == it) cb(nullptr, ctx);                  // the next position must differ from the previous one
 	}
 }
+
+extern "C" {
+size_t sut_tree_size() { return sizeof(Tree) > sizeof(PTree) ? sizeof(Tree) : sizeof(PTree); }
+void sut_tree_construct(void *mem, int mode) { g_mode = mode; if (mode) new (mem) PTree(); else new (mem) Tree(); }
+void sut_tree_destroy(void *mem) { if (g_mode) static_cast<PTree *>(mem)->~PTree(); else static_cast<Tree *>(mem)->~Tree(); }
+void *sut_find(void *tree, uint64_t key) { if (g_mode) return static_cast<PTree *>(tree)->find(key); return static_cast<RVal *>(static_cast<Tree *>(tree)->find(key)); }
+void *sut_find_or_insert(void *tree, uint64_t key, uint64_t seq, int *inserted) {
+	if (g_mode) { auto r = static_cast<PTree *>(tree)->find_or_insert(key); *inserted = r.get<1>(); return r.get<0>(); }
+	auto r = static_cast<Tree *>(tree)->find_or_insert(key, key, seq, ~key ^ seq);
+	*inserted = r.get<1>();
+	return static_cast<RVal *>(r.get<0>());
+}
+void *sut_insert(void *tree, uint64_t key, uint64_t seq) {
+	if (g_mode) return static_cast<PTree *>(tree)->insert(key);
+	return static_cast<RVal *>(static_cast<Tree *>(tree)->insert(key, key, seq, ~key ^ seq));
+}
+void sut_erase(void *tree, uint64_t key) { if (g_mode) static_cast<PTree *>(tree)->erase(key); else static_cast<Tree *>(tree)->erase(key); }
+void sut_iterate(void *tree, void (*cb)(void *, void *), void *ctx) { if (g_mode) iterate(static_cast<PTree *>(tree), cb, ctx); else iterate(static_cast<Tree *>(tree), cb, ctx); }
 }
